@@ -313,6 +313,13 @@ fn check_c04<T: Sc>(ctx: &Ctx, c: &Case, su: &Setup<T>, o: &Outcome<T>) {
     if !fit.ok {
         return;
     }
+    // observations of order 1e160 / 1e-170: the f64 arithmetic of the reference oracles overflows / underflows itself - the
+    // verdict and the budget (above) are what these cases are for
+    let cmax = c.coefs.iter().flatten().fold(0.0f64, |m, v| m.max(v.abs()));
+    if !(1e-100..=1e100).contains(&cmax) {
+        ctx.with(|s| s.inc("extreme_scale_verdicts_checked"));
+        return;
+    }
     let p = fit.problem();
     let obs = observe(p);
     let (Some(coef), Some(res)) = (obs.coef_f64(), obs.res_f64()) else {
@@ -339,11 +346,17 @@ fn check_c04<T: Sc>(ctx: &Ctx, c: &Case, su: &Setup<T>, o: &Outcome<T>) {
     let half = 0.5 * res.norm_squared();
     let objv = fit.objective.d();
     let rel = if c.f32_ { 1e-5 } else { 1e-12 };
-    if !((objv - half).abs() <= rel * half.max(1e-300) + 1e-300) {
+    // in the subject's scalar type 1/2||r||^2 may overflow (f32 data of order 1e24): then the reported objective is +inf
+    let tmax = if c.f32_ { 3.4028235e38 } else { f64::MAX };
+    let tmin = if c.f32_ { 1.4e-45 } else { 5e-324 };
+    let overflowed = (half > tmax && objv == f64::INFINITY) || (half < 4.0 * tmin && objv >= 0.0 && objv <= 4.0 * tmin);
+    if !overflowed && !((objv - half).abs() <= rel * half.max(1e-300) + 1e-300) {
         ctx.with(|s| s.violate("C04", "objective-not-half-squared-residuals", cj(), format!("objective_function = {:e}, 1/2||residuals||^2 = {:e}", objv, half)));
     }
     // never larger than at the initial guess
-    if !(objv <= o.initial_objective * (1.0 + 4.0 * T::EPS)) {
+    // (compared in the subject's scalar type: an initial objective beyond its range is +inf there)
+    let initial_in_t = if o.initial_objective > tmax { f64::INFINITY } else { o.initial_objective };
+    if !(objv <= initial_in_t * (1.0 + 4.0 * T::EPS)) {
         ctx.with(|s| s.violate("C04", "objective-increased", cj(), format!("objective {:e} at the result exceeds the objective {:e} at the initial guess", objv, o.initial_objective)));
     }
     // the returned problem is the state of a fresh problem at alpha_hat
@@ -824,6 +837,26 @@ fn c04_shape_cases(thorough: bool, v: &mut dyn FnMut(Case)) {
     }
 }
 
+/// observations so large that 1/2 ||r||^2 overflows the scalar type although every residual is finite (f32: 1e24, f64: 1e160),
+/// and so small that it underflows (1e-30 / 1e-170): the verdict must still follow the optimizer's termination reason
+fn c04_scale_cases(_thorough: bool, v: &mut dyn FnMut(Case)) {
+    for fam in [Family::Exp1Off, Family::Exp2Off] {
+        let (alpha, cf) = truths(&fam, false)[1].clone();
+        for f32_ in [false, true] {
+            for scale in if f32_ { [1e24, 1e-30] } else { [1e160, 1e-170] } {
+                for s in [1usize, 2] {
+                    for par in [false, true] {
+                        for (level, nv) in [(1e-2, 2u64), (0.0, 0)] {
+                            let coefs: Vec<Vec<f64>> = (0..s).map(|k| cf.iter().map(|c| c * scale * (1.0 + 0.5 * k as f64)).collect()).collect();
+                            v(Case { fam: fam.clone(), alpha: alpha.clone(), coefs, n: 24, prov: Prov::Hand, f32_, par, mrhs_api: s > 1, w: WKind::None, level, noise_variant: nv, start_mult: vec![1.05; fam.p()], solver: SolverCfg::default_(), pool: 0, eps: None });
+                        }
+                    }
+                }
+            }
+        }
+    }
+}
+
 fn dispatch<T: Sc>(ctx: &Ctx, c: &Case, prop: &str, seed: u64) {
     let su = setup::<T>(c, seed);
     let cj = case_json(c);
@@ -899,6 +932,7 @@ fn main() {
             "C04" => {
                 c04_cases(thorough, &mut visit);
                 c04_shape_cases(thorough, &mut visit);
+                c04_scale_cases(thorough, &mut visit);
             }
             "C02" => {
                 c04_cases(thorough, &mut visit);
@@ -917,7 +951,7 @@ fn main() {
                     k += 1;
                     // KeepOnly(M+P): exactly as many samples with a non-zero weight as there are parameters, N larger
                     let mp = c.fam.m() + c.fam.p();
-                    let kinds = [WKind::Ones, WKind::Threes, WKind::Ramp, WKind::InvSigma, WKind::Spread, WKind::Tiny, WKind::Dyadic, WKind::NegAt(3), WKind::ZeroAt(1), WKind::KeepOnly(mp), WKind::KeepOnly(mp + 1)];
+                    let kinds = [WKind::Ones, WKind::Threes, WKind::Ramp, WKind::InvSigma, WKind::Spread, WKind::Tiny, WKind::Dyadic, WKind::NegAt(3), WKind::ZeroAt(1), WKind::KeepOnly(mp), WKind::KeepOnly(mp + 1), WKind::NegRamp, WKind::NegRampZeroAt(2)];
                     if c.w != WKind::None && (thorough || k % 4 == 0) {
                         c.w = kinds[(k as usize / 4) % kinds.len()];
                         visit(c)
